@@ -1,26 +1,32 @@
 ------------------------------- MODULE Parser -------------------------------
 (* The token-driven push-down machine of wikitextprocessor/parser.py, written *)
-(* from the code: one operator per handler function.                          *)
+(* from the code: one operator per handler function, plus a model of the      *)
+(* context-dependent part of token_iter (heading lines, apostrophe runs,      *)
+(* line-start-only tokens).                                                   *)
 (*                                                                            *)
 (*   state  st = [stack, bol, wsp, line, pre, stuck]                           *)
 (*     stack  open frames, bottom = ROOT (ctx.parser_stack)                   *)
 (*     bol    ctx.beginning_of_line      wsp  ctx.wsp_beginning_of_line       *)
 (*     line   ctx.linenum                pre  ctx.pre_parse                   *)
 (*     stuck  set when no handler branch applies (an exception in the code)   *)
-(*   frame    [kind, sarg, largs, attrs, children, loc]                       *)
-(*   child    [s |-> <<atoms>>]  (a string, atoms merged on append)  or a     *)
-(*            popped frame [kind, sarg, largs, attrs, children]               *)
+(*   frame    [kind, sarg, largs, attrs, children, loc, th]                   *)
+(*   child    [s |-> <<atoms>>]  (a string; atoms are merged on append)  or a *)
+(*            popped frame [kind, sarg, largs, attrs, children (, def)]       *)
 (*                                                                            *)
-(* Strings are sequences of atoms ("w3", "NL", "SP", ...); list markers are   *)
+(* Strings are sequences of atoms ("w", "NL", "SP", ...); list markers are    *)
 (* sequences of one-character strings.  Links, templates, template arguments  *)
 (* and external links arrive as one atomic MAGIC token (their arguments are   *)
-(* plain words, so the recursion of magic_fn cannot disturb the stack).       *)
+(* plain words, so the recursion inside magic_fn cannot disturb the stack;    *)
+(* consequently URL/TEMPLATE frames are never open at token level and         *)
+(* begline_enabled is always true).                                           *)
 (*                                                                            *)
-(* Dev: named deviations; Dev = {} is the behaviour the properties demand,    *)
+(* Dev: named deviations; Dev = {} is the behaviour the properties demand.    *)
 (*   "HlineClosesLevel1"  hline_fn stops only at ROOT/LEVEL2 (as-is), so a    *)
 (*                        rule also closes an open LEVEL1 without LEVEL2      *)
-(*   "PreParseLeftSet"    parse_encoded leaves pre_parse set when <pre> is    *)
-(*                        still open at the end of input                      *)
+(*   "PreParseLeftSet"    parse_encoded leaves pre_parse set when <pre> was   *)
+(*                        never closed                                        *)
+(*   "PreInHeading"       <pre> inside a heading line swallows the heading    *)
+(*                        end token: the LEVEL node keeps no title argument   *)
 EXTENDS Naturals, Sequences, FiniteSets, TLC
 
 (* ---------------------------------------------------------------- kinds -- *)
@@ -33,7 +39,6 @@ KindOfLevel(l) ==
     [] l = 4 -> "LEVEL4" [] l = 5 -> "LEVEL5" [] l = 6 -> "LEVEL6"
 IsLevel(kind) == LevelOf(kind) < 99          \* kind in KIND_TO_LEVEL (incl. ROOT)
 
-HaveArgsKinds == {"LINK", "TEMPLATE", "TEMPLATE_ARG", "PARSER_FN", "URL"}
 MustCloseKinds == {"ITALIC", "BOLD", "PRE", "HTML", "LINK", "TEMPLATE", "TEMPLATE_ARG",
                    "PARSER_FN", "URL", "TABLE"}
 TableParts == {"TABLE", "TABLE_CAPTION", "TABLE_ROW", "TABLE_HEADER_CELL", "TABLE_CELL"}
@@ -44,73 +49,78 @@ TableParts == {"TABLE", "TABLE_CAPTION", "TABLE_ROW", "TABLE_HEADER_CELL", "TABL
 ModelledTags == {"span", "div", "br", "ref", "li", "ul"}
 NoEndTag(t) == t = "br"
 CloseNext(t) == IF t = "li" THEN {"li"} ELSE {}
-\* set_html_tag_data: parents of a phrasing child = tags whose content has
-\* phrasing/flow/*; parents of a flow child = tags whose content has flow/*
-FlowContent == {"div", "li", "ref"}            \* content: flow or *
-PhrasingContent == FlowContent \cup {"span"}   \* content: phrasing (or flow, *)
+FlowContent == {"div", "li", "ref"}            \* tags whose content has flow or *
+PhrasingContent == FlowContent \cup {"span"}   \* ... phrasing, flow or *
 PermittedParents(t) ==
   CASE t = "span" -> PhrasingContent
     [] t = "br"   -> PhrasingContent
     [] t = "div"  -> FlowContent
     [] t = "ul"   -> FlowContent
-    [] t = "ref"  -> PhrasingContent           \* parents "*": flow + phrasing parents
+    [] t = "ref"  -> PhrasingContent
     [] t = "li"   -> {"ul"}
     [] OTHER      -> {}
 
 (* --------------------------------------------------------------- frames -- *)
+NoHead == [has |-> FALSE, v |-> <<>>]
 Frame(kind, sarg, loc) ==
-  [kind |-> kind, sarg |-> sarg, largs |-> <<>>, attrs |-> <<>>, children |-> <<>>, loc |-> loc]
-NodeOf(f) == [kind |-> f.kind, sarg |-> f.sarg, largs |-> f.largs, attrs |-> f.attrs, children |-> f.children]
+  [kind |-> kind, sarg |-> sarg, largs |-> <<>>, attrs |-> <<>>, children |-> <<>>,
+   loc |-> loc, th |-> NoHead]
 IsStr(c) == "s" \in DOMAIN c
+Last(seq) == seq[Len(seq)]
+DropLast(seq) == SubSeq(seq, 1, Len(seq) - 1)
+
+\* _parser_pop: a definition-list item with a non-empty saved head gets
+\* children = head, definition = what followed the colon
+NodeOf(f) ==
+  LET base == [kind |-> f.kind, sarg |-> f.sarg, largs |-> f.largs, attrs |-> f.attrs,
+               children |-> f.children] IN
+  IF f.kind = "LIST_ITEM" /\ Last(f.sarg) = ";" /\ f.th.has /\ f.th.v # <<>>
+  THEN [base EXCEPT !.children = f.th.v] @@ [def |-> f.children]
+  ELSE base
 
 Top(st) == st.stack[Len(st.stack)]
 SetTop(st, f) == [st EXCEPT !.stack[Len(st.stack)] = f]
 Have(st, kinds) == \E i \in 1..Len(st.stack) : st.stack[i].kind \in kinds
 Stuck(st) == [st EXCEPT !.stuck = TRUE]
 
-LastIsStr(f) == Len(f.children) > 0 /\ IsStr(f.children[Len(f.children)])
-LastStr(f) == f.children[Len(f.children)].s
-LastIsNode(f) == Len(f.children) > 0 /\ ~IsStr(f.children[Len(f.children)])
-LastNode(f) == f.children[Len(f.children)]
+LastIsStr(f) == Len(f.children) > 0 /\ IsStr(Last(f.children))
+LastStr(f) == Last(f.children).s
+LastIsNode(f) == Len(f.children) > 0 /\ ~IsStr(Last(f.children))
+LastNode(f) == Last(f.children)
 
-\* node.children.append(token) followed (later) by _parser_merge_str_children
+\* node.children.append(token), merged by _parser_merge_str_children
 AppendText(f, atom) ==
   IF LastIsStr(f)
   THEN [f EXCEPT !.children[Len(f.children)] = [s |-> Append(LastStr(f), atom)]]
   ELSE [f EXCEPT !.children = Append(f.children, [s |-> <<atom>>])]
 AppendNode(f, node) == [f EXCEPT !.children = Append(f.children, node)]
-DropLast(seq) == SubSeq(seq, 1, Len(seq) - 1)
 
-(* _parser_push: the new node becomes a child of the top when it is popped   *)
+(* _parser_push: (the new node becomes a child of the frame below when popped) *)
 Push(st, kind, sarg) == [st EXCEPT !.stack = Append(st.stack, Frame(kind, sarg, st.line))]
+PushA(st, kind, sarg, attrs) ==
+  [st EXCEPT !.stack = Append(st.stack, [Frame(kind, sarg, st.line) EXCEPT !.attrs = attrs])]
 
-(* _parser_pop(ctx, warn): fix-ups, then the frame becomes a child of the new *)
-(* top.  `warn` only matters for an empty URL frame (un-pushed into "[").     *)
-RECURSIVE TextFn(_, _)
-PopRaw(st) ==
+(* _parser_pop: empty BOLD/ITALIC frames vanish; otherwise the frame becomes  *)
+(* the last child of the frame below.  Popping ROOT is an IndexError.         *)
+Pop(st) ==
   LET n == Len(st.stack)
       f == st.stack[n]
       rest == SubSeq(st.stack, 1, n - 1)
-      g == IF f.kind \in HaveArgsKinds
-           THEN [f EXCEPT !.largs = Append(f.largs, f.children), !.children = <<>>]
-           ELSE f
-  IN [st EXCEPT !.stack = [rest EXCEPT ![n - 1] = AppendNode(rest[n - 1], NodeOf(g))]]
-Discard(st) == [st EXCEPT !.stack = DropLast(st.stack)]
-Pop(st, warn) ==
-  LET f == Top(st) IN
-  IF Len(st.stack) < 2 THEN Stuck(st)
-  ELSE IF warn /\ f.kind = "URL" /\ f.children = <<>> THEN TextFn(Discard(st), "[")
-  ELSE IF f.kind \in {"BOLD", "ITALIC"} /\ f.children = <<>> THEN Discard(st)
-  ELSE PopRaw(st)
+  IN IF n < 2 THEN Stuck(st)
+     ELSE IF f.kind \in {"BOLD", "ITALIC"} /\ f.children = <<>> THEN [st EXCEPT !.stack = rest]
+     ELSE [st EXCEPT !.stack = [rest EXCEPT ![n - 1] = AppendNode(rest[n - 1], NodeOf(f))]]
 
-RECURSIVE PopN(_, _, _)
-PopN(st, n, warn) == IF n <= 0 \/ st.stuck THEN st ELSE PopN(Pop(st, warn), n - 1, warn)
+RECURSIVE PopN(_, _)
+PopN(st, n) == IF n <= 0 \/ st.stuck THEN st ELSE PopN(Pop(st), n - 1)
+RECURSIVE PopUntil(_, _)       \* pop while the top kind is not in `kinds`
+PopUntil(st, kinds) == IF st.stuck \/ Top(st).kind \in kinds THEN st ELSE PopUntil(Pop(st), kinds)
+\* a closed leaf node (push immediately followed by pop)
+Leaf(kind, sarg, largs) == [kind |-> kind, sarg |-> sarg, largs |-> largs, attrs |-> <<>>, children |-> <<>>]
 
-(* close_begline_lists (begline_enabled is always true at token level: magic  *)
-(* tokens are atomic)                                                         *)
+(* close_begline_lists *)
 RECURSIVE PopWhileHaveList(_)
-PopWhileHaveList(st) == IF Have(st, {"LIST"}) /\ ~st.stuck THEN PopWhileHaveList(Pop(st, TRUE)) ELSE st
-\* scanning from the top: a LIST before any <ref> -> close; a <ref> first -> keep
+PopWhileHaveList(st) == IF Have(st, {"LIST"}) /\ ~st.stuck THEN PopWhileHaveList(Pop(st)) ELSE st
+\* scanning down from the top: a LIST before any <ref> -> close; <ref> first -> keep
 RECURSIVE RefShields(_, _)
 RefShields(stack, i) ==
   IF i = 0 THEN FALSE
@@ -125,32 +135,30 @@ CloseBeglineLists(st) ==
 (* ---------------------------------------------------------------- text_fn *)
 IsSpaceAtom(a) == a \in {"SP", "NL"}
 AllWs(s) == \A i \in 1..Len(s) : IsSpaceAtom(s[i])
-EndsNL(f) == LastIsStr(f) /\ LastStr(f)[Len(LastStr(f))] = "NL"
-LooksLikeUrl(atom) == atom = "URLW"           \* re.match("(https?:|mailto:|//)", token)
-StartsWithSpace(atom) == atom = "SP"
+EndsNL(f) == LastIsStr(f) /\ Last(LastStr(f)) = "NL"
 InRefOrP(st) == \E i \in 1..Len(st.stack) :
                    st.stack[i].kind = "HTML" /\ st.stack[i].sarg \in {<<"ref">>, <<"p">>}
+IsWordAtom(a) == a \in {"w", "a=b"} \/ (a \notin {"SP", "NL"} /\ Len(<<a>>) = 1 /\ a \in WordAtoms)
 
-\* the auto-close loop of text_fn at the beginning of a line; result
-\* [st, done]: done = the token was consumed inside the loop
+\* the auto-close loop of text_fn at the beginning of a line;
+\* done = the token was consumed inside the loop
 RECURSIVE AutoPop(_, _)
 AutoPop(st, atom) ==
   LET f == Top(st) IN
   IF st.stuck THEN [st |-> st, done |-> TRUE]
   ELSE IF f.kind = "LIST_ITEM"
-  THEN IF StartsWithSpace(atom) THEN [st |-> SetTop(st, AppendText(f, atom)), done |-> TRUE]
+  THEN IF atom = "SP" THEN [st |-> SetTop(st, AppendText(f, atom)), done |-> TRUE]
        ELSE IF EndsNL(f) /\ (Len(f.children) > 1 \/ ~AllWs(LastStr(f)))
-            THEN AutoPop(Pop(st, FALSE), atom)
+            THEN AutoPop(Pop(st), atom)
             ELSE [st |-> st, done |-> FALSE]
-  ELSE IF f.kind = "LIST" THEN AutoPop(Pop(st, FALSE), atom)
+  ELSE IF f.kind = "LIST" THEN AutoPop(Pop(st), atom)
   ELSE IF f.kind = "PREFORMATTED"
-  THEN IF EndsNL(f) /\ ~StartsWithSpace(atom) THEN AutoPop(Pop(st, FALSE), atom)
+  THEN IF EndsNL(f) /\ atom # "SP" THEN AutoPop(Pop(st), atom)
        ELSE [st |-> st, done |-> FALSE]
-  ELSE IF f.kind \in {"BOLD", "ITALIC"} THEN AutoPop(Pop(st, FALSE), atom)
+  ELSE IF f.kind \in {"BOLD", "ITALIC"} THEN AutoPop(Pop(st), atom)
   ELSE [st |-> st, done |-> FALSE]
 
-\* link trail: a word directly after a LINK without children goes into the link
-IsWordAtom(atom) == ~IsSpaceAtom(atom) /\ atom \notin {"[", "]", "|", "!", "+", "-", "}", "{", "EQ", "MARK", "COLON", "TAGTXT", "HR", "APO", "URLW", "NOWIKI"}
+\* link trail: word characters directly after a LINK without children
 AddTextChild(st, atom) ==
   LET f == Top(st) IN
   IF LastIsNode(f) /\ LastNode(f).kind = "LINK" /\ LastNode(f).children = <<>> /\ IsWordAtom(atom)
@@ -158,65 +166,60 @@ AddTextChild(st, atom) ==
   ELSE SetTop(st, AppendText(f, atom))
 
 TextFn(st0, atom) ==
-  LET st1 == CloseBeglineLists(st0)
-      f1 == Top(st1)
-  IN
+  LET st1 == CloseBeglineLists(st0) IN
   IF st1.stuck THEN st1
-  \* external link [ ... ]: only a URL-looking first token keeps the URL node
-  ELSE IF f1.kind = "URL" /\ f1.largs = <<>> /\ f1.children = <<>> /\ ~LooksLikeUrl(atom)
-  THEN TextFn(TextFn(Discard(st1), "["), atom)
-  ELSE IF f1.kind = "URL" /\ IsSpaceAtom(atom) /\ f1.largs = <<>>
-  THEN SetTop(st1, [f1 EXCEPT !.largs = <<f1.children>>, !.children = <<>>])
   ELSE IF ~st1.bol THEN AddTextChild(st1, atom)
   ELSE LET r == AutoPop(st1, atom) IN
        IF r.done THEN r.st
        ELSE LET st2 == r.st
                 f2 == Top(st2) IN
-            IF StartsWithSpace(atom)
+            IF atom = "SP"
             THEN IF f2.kind \in {"TABLE", "TABLE_ROW"} THEN st2
                  ELSE IF f2.kind # "PREFORMATTED" /\ ~st2.pre /\ ~InRefOrP(st2)
                       THEN AddTextChild(Push(st2, "PREFORMATTED", <<>>), atom)
                       ELSE AddTextChild(st2, atom)
             ELSE AddTextChild(st2, atom)
+RECURSIVE TextSeq(_, _, _)
+TextSeq(st, atoms, i) ==
+  IF i > Len(atoms) THEN st
+  \* one text token of several atoms: only the first atom sees the line start
+  ELSE IF i = 1 THEN TextSeq(TextFn(st, atoms[1]), atoms, 2)
+  ELSE TextSeq(SetTop(st, AppendText(Top(st), atoms[i])), atoms, i + 1)
 
 (* --------------------------------------------------------------- hline_fn *)
 HlineStops(Dev) == {"ROOT", "LEVEL2", "HTML"} \cup TableParts
                    \cup (IF "HlineClosesLevel1" \in Dev THEN {} ELSE {"LEVEL1"})
-RECURSIVE PopToHline(_, _)
-PopToHline(st, Dev) ==
-  IF st.stuck \/ Top(st).kind \in HlineStops(Dev) THEN st ELSE PopToHline(Pop(st, TRUE), Dev)
-HlineFn(st0, Dev) == Pop(Push(PopToHline(CloseBeglineLists(st0), Dev), "HLINE", <<>>), TRUE)
+HlineFn(st0, Dev) ==
+  LET st1 == PopUntil(CloseBeglineLists(st0), HlineStops(Dev)) IN
+  IF st1.stuck THEN st1 ELSE SetTop(st1, AppendNode(Top(st1), Leaf("HLINE", <<>>, <<>>)))
 
 (* ------------------------------------------- subtitle_start_fn / _end_fn -- *)
-RECURSIVE PopForTitle(_, _)
 HaveLevel(st) == \E i \in 1..Len(st.stack) : IsLevel(st.stack[i].kind)
+RECURSIVE PopForTitle(_, _)
 PopForTitle(st, level) ==
   LET f == Top(st) IN
   IF st.stuck \/ ~HaveLevel(st) THEN st
   ELSE IF LevelOf(f.kind) < level THEN st
   ELSE IF f.kind = "HTML" /\ f.sarg # <<"span">> THEN st
   ELSE IF f.kind \in (MustCloseKinds \ {"HTML"}) THEN st
-  ELSE PopForTitle(Pop(st, TRUE), level)
-EqAtoms(l) == [i \in 1..l |-> "EQ"]
-RECURSIVE TextSeq(_, _, _)
-TextSeq(st, atoms, i) == IF i > Len(atoms) THEN st ELSE TextSeq(TextFn(st, atoms[i]), atoms, i + 1)
+  ELSE PopForTitle(Pop(st), level)
+EqAtoms(l) == [i \in 1..l |-> "="]
 SubtitleStart(st0, l) ==
-  IF st0.pre \/ ~st0.bol THEN TextFn(st0, "EQ")
+  IF st0.pre \/ ~st0.bol THEN TextSeq(st0, EqAtoms(l), 1)
   ELSE Push(PopForTitle(CloseBeglineLists(st0), l), KindOfLevel(l), <<>>)
 
-\* looks down the stack while frames were opened on this line; pops down to
-\* the start node; not found -> text
+\* walks down the stack while the frames were opened on this line
 RECURSIVE FindStart(_, _, _)
-FindStart(st, kind, i) ==      \* number of frames above the start node, or 99 = not found
+FindStart(st, kind, i) ==      \* number of frames above the start node; 99 = not found
   IF i = 0 THEN 99
   ELSE IF st.stack[i].loc # st.line THEN 99
   ELSE IF st.stack[i].kind = kind THEN Len(st.stack) - i
   ELSE FindStart(st, kind, i - 1)
-SubtitleEnd(st, l) ==
-  IF st.pre THEN TextFn(st, "EQ")
+SubtitleEnd(st, l, Dev) ==
+  IF st.pre /\ "PreInHeading" \in Dev THEN TextSeq(st, EqAtoms(l), 1)
   ELSE LET cnt == FindStart(st, KindOfLevel(l), Len(st.stack)) IN
-       IF cnt = 99 THEN TextFn(st, "EQ")
-       ELSE LET st1 == PopN(st, cnt, TRUE)
+       IF cnt = 99 THEN TextSeq(st, EqAtoms(l), 1)
+       ELSE LET st1 == PopN(st, cnt)
                 f == Top(st1) IN
             IF st1.stuck \/ f.kind # KindOfLevel(l) THEN Stuck(st1)
             ELSE SetTop(st1, [f EXCEPT !.largs = Append(f.largs, f.children), !.children = <<>>])
@@ -227,22 +230,22 @@ IsPrefixMatch(sarg, tok) ==
   Len(sarg) < Len(tok) /\ \A i \in 1..Len(sarg) : tok[i] = ":" \/ tok[i] = sarg[i]
 ListKeep == {"HTML", "TEMPLATE", "TEMPLATE_ARG", "PARSER_FN", "TABLE", "TABLE_HEADER_CELL",
              "TABLE_ROW", "TABLE_CELL"}
-Last(seq) == seq[Len(seq)]
-\* result [st, ret]: ret = list_fn returned from inside the loop (definition shuffle)
+SaveHead(f) == [f EXCEPT !.th = [has |-> TRUE, v |-> f.children], !.children = <<>>]
+\* ret = list_fn returned from inside its loop (definition shuffle)
 RECURSIVE ListPop(_, _)
 ListPop(st, tok) ==
   LET f == Top(st) IN
   IF st.stuck THEN [st |-> st, ret |-> TRUE]
   ELSE IF f.kind = "LIST_ITEM" /\ Last(f.sarg) = ";" /\ Last(tok) = ":"
           /\ DropLast(tok) = DropLast(f.sarg) /\ ~f.th.has
-  THEN [st |-> SetTop(st, [f EXCEPT !.th = [has |-> TRUE, v |-> f.children], !.children = <<>>]), ret |-> TRUE]
+  THEN [st |-> SetTop(st, SaveHead(f)), ret |-> TRUE]
   ELSE IF f.kind = "LIST_ITEM" /\ Last(tok) = ":" /\ f.sarg = DropLast(tok) /\ LastIsNode(f)
   THEN [st |-> st, ret |-> FALSE]
-  ELSE IF f.kind = "LIST_ITEM" /\ f.sarg = tok THEN [st |-> Pop(st, FALSE), ret |-> FALSE]
+  ELSE IF f.kind = "LIST_ITEM" /\ f.sarg = tok THEN [st |-> Pop(st), ret |-> FALSE]
   ELSE IF f.kind = "LIST_ITEM" /\ IsPrefixMatch(f.sarg, tok) THEN [st |-> st, ret |-> FALSE]
   ELSE IF IsLevel(f.kind) THEN [st |-> st, ret |-> FALSE]
   ELSE IF f.kind \in ListKeep THEN [st |-> st, ret |-> FALSE]
-  ELSE ListPop(Pop(st, TRUE), tok)
+  ELSE ListPop(Pop(st), tok)
 \* pop_until_nth_list
 RECURSIVE CountPassed(_, _, _, _)
 CountPassed(stack, i, cnt, passed) ==
@@ -250,28 +253,449 @@ CountPassed(stack, i, cnt, passed) ==
   ELSE LET c2 == IF stack[i].kind = "LIST" THEN cnt - 1 ELSE cnt IN
        IF c2 = 0 THEN passed + 1 ELSE CountPassed(stack, i + 1, c2, passed + 1)
 PopUntilNthList(st, tok) ==
-  LET passed == CountPassed(st.stack, 1, Len(tok), 0)
-                + (IF tok[1] \in {":", ";"} THEN 1 ELSE 0)
-  IN PopN(st, Len(st.stack) - passed, TRUE)
-ListFrame(kind, tok, loc) == Frame(kind, tok, loc) @@ [th |-> [has |-> FALSE, v |-> <<>>]]
-PushList(st, kind, tok) == [st EXCEPT !.stack = Append(st.stack, ListFrame(kind, tok, st.line))]
+  LET passed == CountPassed(st.stack, 1, Len(tok), 0) + (IF tok[1] \in {":", ";"} THEN 1 ELSE 0)
+  IN PopN(st, Len(st.stack) - passed)
 ListFn(st0, tok) ==
-  IF st0.pre THEN TextFn(st0, "MARK")
-  ELSE IF Top(st0).kind \in {"LINK", "URL"} THEN TextFn(st0, "MARK")
-  ELSE IF ~st0.bol THEN TextFn(st0, "MARK")
+  LET f0 == Top(st0) IN
+  IF st0.pre THEN TextSeq(st0, tok, 1)
+  ELSE IF f0.kind \in {"LINK", "URL"} THEN TextSeq(st0, tok, 1)
+  ELSE IF ~st0.bol
+  THEN IF tok = <<":">> /\ f0.kind = "LIST_ITEM" /\ Last(f0.sarg) = ";" /\ ~f0.th.has
+       THEN SetTop(st0, SaveHead(f0))
+       ELSE TextSeq(st0, tok, 1)
   ELSE LET r == ListPop(st0, tok) IN
        IF r.ret THEN r.st
        ELSE LET st2 == PopUntilNthList(r.st, tok)
-                st3 == IF Top(st2).kind # "LIST" THEN PushList(st2, "LIST", tok) ELSE st2
-            IN IF st2.stuck THEN st2 ELSE PushList(st3, "LIST_ITEM", tok)
+                st3 == IF Top(st2).kind # "LIST" THEN Push(st2, "LIST", tok) ELSE st2
+            IN IF st2.stuck THEN st2 ELSE Push(st3, "LIST_ITEM", tok)
 
-(* a colon in the middle of a line: "; term : definition" *)
-ColonFn(st) ==
+(* ------------------------------------------------- italic_fn / bold_fn ---- *)
+Other(kind) == IF kind = "ITALIC" THEN "BOLD" ELSE "ITALIC"
+\* pops down to and including the nearest `kind` frame; saw = an Other(kind)
+\* frame was passed on the way
+RECURSIVE PopToFormat(_, _, _)
+PopToFormat(st, kind, saw) ==
   LET f == Top(st) IN
-  IF st.pre THEN TextFn(st, "COLON")
-  ELSE IF f.kind \in {"LINK", "URL"} THEN TextFn(st, "COLON")
-  ELSE IF st.bol THEN ListFn(st, <<":">>)
-  ELSE IF f.kind = "LIST_ITEM" /\ Last(f.sarg) = ";" /\ ~f.th.has
-  THEN SetTop(st, [f EXCEPT !.th = [has |-> TRUE, v |-> f.children], !.children = <<>>])
-  ELSE TextFn(st, "COLON")
+  IF st.stuck THEN [st |-> st, saw |-> saw]
+  ELSE IF f.kind = kind THEN [st |-> Pop(st), saw |-> saw]
+  ELSE PopToFormat(Pop(st), kind, saw \/ f.kind = Other(kind))
+FormatFn(st0, kind, atoms) ==
+  IF st0.pre THEN TextSeq(st0, atoms, 1)
+  ELSE LET st1 == CloseBeglineLists(st0) IN
+       IF st1.stuck THEN st1
+       ELSE IF ~Have(st1, {kind}) \/ Top(st1).kind = "LINK" THEN Push(st1, kind, <<>>)
+       ELSE LET r == PopToFormat(st1, kind, FALSE) IN
+            IF r.saw /\ ~r.st.stuck THEN Push(r.st, Other(kind), <<>>) ELSE r.st
+
+(* ------------------------------------------------------------- tables ---- *)
+\* parse_attrs on a plain string: every word-like atom becomes a key
+RECURSIVE KeysOf(_, _, _)
+KeyOfAtom(a) == IF a = "a=b" THEN "a" ELSE a
+KeysOf(s, i, acc) ==
+  IF i > Len(s) THEN acc
+  ELSE IF s[i] \in {"w", "a=b"} /\ ~(\E j \in 1..Len(acc) : acc[j] = KeyOfAtom(s[i]))
+       THEN KeysOf(s, i + 1, Append(acc, KeyOfAtom(s[i])))
+       ELSE KeysOf(s, i + 1, acc)
+\* check_for_attributes + parse_attrs for a frame whose children are one
+\* string; mixed children are left alone (approximation, see notes/C01.md)
+TakeAttrs(f) ==
+  IF Len(f.children) = 1 /\ IsStr(f.children[1])
+  THEN [f EXCEPT !.attrs = KeysOf(f.children[1].s, 1, f.attrs), !.children = <<>>]
+  ELSE f
+TableCheckAttrs(st) ==
+  IF Top(st).kind = "TABLE" THEN SetTop(st, TakeAttrs(Top(st))) ELSE st
+TableRowCheckAttrs(st0) ==
+  LET st == CloseBeglineLists(st0) IN
+  IF ~st.stuck /\ Top(st).kind = "TABLE_ROW" THEN SetTop(st, TakeAttrs(Top(st))) ELSE st
+
+RECURSIVE TableCellLoop(_, _)
+RECURSIVE TableHdrLoop(_, _)
+TableCellFn(st0, atoms) ==        \* token "|" (atoms <<"|">>) or "||"
+  IF st0.pre THEN TextSeq(st0, atoms, 1)
+  ELSE LET st1 == TableCheckAttrs(TableRowCheckAttrs(CloseBeglineLists(st0)))
+           f == Top(st1) IN
+       IF st1.stuck THEN st1
+       ELSE IF ~Have(st1, {"TABLE"}) THEN TextSeq(st1, atoms, 1)
+       ELSE IF atoms = <<"|">> /\ ~st1.wsp /\ ~st1.bol
+               /\ f.kind \in {"TABLE_CAPTION", "TABLE_HEADER_CELL", "TABLE_CELL"}
+       THEN IF f.attrs = <<>>
+            THEN (IF Len(f.children) = 1 /\ IsStr(f.children[1]) THEN SetTop(st1, TakeAttrs(f)) ELSE st1)
+            ELSE TextSeq(st1, atoms, 1)
+       ELSE TableCellLoop(st1, atoms)
+TableCellLoop(st, atoms) ==
+  LET f == Top(st) IN
+  IF st.stuck THEN st
+  ELSE IF f.kind = "TABLE_ROW" THEN Push(st, "TABLE_CELL", <<>>)
+  ELSE IF f.kind = "TABLE" THEN Push(Push(st, "TABLE_ROW", <<>>), "TABLE_CELL", <<>>)
+  ELSE IF f.kind \in {"TABLE_CAPTION", "HTML"} THEN TextSeq(st, atoms, 1)
+  ELSE TableCellLoop(Pop(st), atoms)
+
+TableHdrCellFn(st0, atoms) ==     \* token "!" or "!!" (or "||" via double_vbar_fn)
+  IF st0.pre THEN TextSeq(st0, atoms, 1)
+  ELSE LET st1 == TableCheckAttrs(TableRowCheckAttrs(CloseBeglineLists(st0))) IN
+       IF st1.stuck THEN st1
+       ELSE IF ~Have(st1, {"TABLE"}) THEN TextSeq(st1, atoms, 1)
+       ELSE IF atoms = <<"!">> /\ ~(st1.bol \/ st1.wsp) THEN TextSeq(st1, atoms, 1)
+       ELSE TableHdrLoop(st1, atoms)
+TableHdrLoop(st, atoms) ==
+  LET f == Top(st) IN
+  IF st.stuck THEN st
+  ELSE IF f.kind = "TABLE_ROW" THEN Push(st, "TABLE_HEADER_CELL", <<>>)
+  ELSE IF f.kind = "TABLE" THEN Push(Push(st, "TABLE_ROW", <<>>), "TABLE_HEADER_CELL", <<>>)
+  ELSE IF f.kind = "TABLE_CAPTION"
+  THEN IF st.bol THEN Push(Push(Pop(st), "TABLE_ROW", <<>>), "TABLE_HEADER_CELL", <<>>)
+       ELSE TextSeq(st, atoms, 1)
+  ELSE IF f.kind \in {"HTML", "TEMPLATE", "LINK", "URL"} THEN TextSeq(st, atoms, 1)
+  ELSE IF f.kind = "TABLE_CELL" /\ ~st.bol /\ ~st.wsp THEN TextSeq(st, atoms, 1)
+  ELSE TableHdrLoop(Pop(st), atoms)
+
+VbarFn(st) == IF Have(st, {"TABLE"}) THEN TableCellFn(st, <<"|">>) ELSE TextFn(st, "|")
+
+\* [st, kind]: kind = the last frame kind the loop looked at
+RECURSIVE DvbLoop(_)
+DvbLoop(st) ==
+  LET f == Top(st) IN
+  IF st.stuck THEN [st |-> st, k |-> "X", txt |-> FALSE]
+  ELSE IF f.kind = "TABLE_ROW" THEN [st |-> st, k |-> "TABLE_ROW", txt |-> FALSE]
+  ELSE IF f.kind = "TABLE" THEN [st |-> Push(st, "TABLE_ROW", <<>>), k |-> "TABLE", txt |-> FALSE]
+  ELSE IF f.kind \in {"TABLE_CAPTION", "HTML"} THEN [st |-> st, k |-> f.kind, txt |-> TRUE]
+  ELSE IF f.kind \in {"TABLE_CELL", "TABLE_HEADER_CELL"} THEN DvbLoop(Pop(st))
+  ELSE [st |-> st, k |-> f.kind, txt |-> FALSE]
+DoubleVbarFn(st0) ==
+  LET r == DvbLoop(st0)
+      f == Top(r.st) IN
+  IF r.st.stuck THEN r.st
+  ELSE IF r.txt THEN TextSeq(r.st, <<"|", "|">>, 1)
+  ELSE IF r.k = "TABLE_ROW" /\ LastIsNode(f) /\ LastNode(f).kind = "TABLE_HEADER_CELL"
+  THEN TableHdrCellFn(r.st, <<"|", "|">>)
+  ELSE TableCellFn(r.st, <<"|", "|">>)
+
+TableStartFn(st) ==
+  IF st.pre THEN TextSeq(st, <<"{", "|">>, 1)
+  ELSE IF ~(st.bol \/ st.wsp) THEN VbarFn(TextFn(st, "{"))
+  ELSE Push(CloseBeglineLists(st), "TABLE", <<>>)
+
+RECURSIVE ContainsKind(_, _)
+ContainsKindIn(lst, kind) == \E i \in 1..Len(lst) : ~IsStr(lst[i]) /\ (lst[i].kind = kind \/ ContainsKind(lst[i], kind))
+ContainsKind(n, kind) == ContainsKindIn(n.children, kind) \/ \E k \in 1..Len(n.largs) : ContainsKindIn(n.largs[k], kind)
+
+TableCaptionFn(st0) ==
+  IF st0.pre THEN TextSeq(st0, <<"|", "+">>, 1)
+  ELSE IF ~(st0.bol \/ st0.wsp) THEN TextFn(VbarFn(st0), "+")
+  ELSE LET st1 == TableCheckAttrs(CloseBeglineLists(st0)) IN
+       IF st1.stuck THEN st1
+       ELSE IF ~Have(st1, {"TABLE"}) THEN TextSeq(st1, <<"|", "+">>, 1)
+       ELSE Push(PopUntil(st1, {"TABLE"}), "TABLE_CAPTION", <<>>)
+TableRowFn(st0) ==
+  IF st0.pre THEN TextSeq(st0, <<"|", "-">>, 1)
+  ELSE IF ~(st0.bol \/ st0.wsp)
+  THEN IF Top(st0).kind = "TABLE" /\ ~ContainsKind(Top(st0), "TABLE_ROW") THEN st0
+       ELSE TextFn(VbarFn(st0), "-")
+  ELSE LET st1 == TableCheckAttrs(CloseBeglineLists(st0)) IN
+       IF st1.stuck THEN st1
+       ELSE IF ~Have(st1, {"TABLE"}) THEN TextSeq(st1, <<"|", "-">>, 1)
+       ELSE Push(PopUntil(st1, {"TABLE"}), "TABLE_ROW", <<>>)
+TableEndFn(st0) ==
+  IF st0.pre THEN TextSeq(st0, <<"|", "}">>, 1)
+  ELSE IF ~(st0.bol \/ st0.wsp) THEN TextFn(VbarFn(st0), "}")
+  ELSE LET st1 == TableCheckAttrs(TableRowCheckAttrs(CloseBeglineLists(st0))) IN
+       IF st1.stuck THEN st1
+       ELSE IF ~Have(st1, {"TABLE"}) THEN TextSeq(st1, <<"|", "}">>, 1)
+       ELSE Pop(PopUntil(st1, {"TABLE"}))
+
+(* ----------------------------------------------------------------- tag_fn *)
+TagAtom(name, close) == IF close THEN "</" \o name \o ">" ELSE "<" \o name \o ">"
+HaveTag(st, name) == \E i \in 1..Len(st.stack) : st.stack[i].kind = "HTML" /\ st.stack[i].sarg = <<name>>
+\* auto-close HTML parents that may not contain this tag
+RECURSIVE CloseParents(_, _)
+CloseParents(st, name) ==
+  LET f == Top(st) IN
+  IF st.stuck \/ f.kind # "HTML" THEN st
+  ELSE IF f.sarg[1] \in PermittedParents(name) THEN st
+  ELSE CloseParents(Pop(st), name)
+TagStartFn(st0, name, attrs, alsoEnd) ==
+  LET st1 == CloseBeglineLists(st0) IN
+  IF st1.stuck THEN st1
+  ELSE IF st1.pre THEN TextFn(st1, TagAtom(name, FALSE))
+  ELSE IF name = "pre"
+  THEN IF alsoEnd THEN Pop(PushA(st1, "PRE", <<>>, attrs))
+       ELSE [PushA(st1, "PRE", <<>>, attrs) EXCEPT !.pre = TRUE]
+  ELSE IF name \notin ModelledTags THEN TextFn(st1, TagAtom(name, FALSE))
+  ELSE LET st2 == PushA(CloseParents(st1, name), "HTML", <<name>>, attrs) IN
+       IF st2.stuck THEN st2
+       ELSE IF NoEndTag(name) \/ alsoEnd THEN Pop(st2) ELSE st2
+
+\* which of "matching HTML frame" / "LIST_ITEM" comes first from the top
+RECURSIVE EndTagCloses(_, _, _)
+EndTagCloses(stack, i, name) ==
+  IF i = 0 THEN FALSE
+  ELSE IF stack[i].kind = "HTML" /\ stack[i].sarg = <<name>> THEN FALSE
+  ELSE IF stack[i].kind = "LIST_ITEM" THEN TRUE
+  ELSE EndTagCloses(stack, i - 1, name)
+RECURSIVE CloseToTag(_, _)
+CloseToTag(st, name) ==
+  LET f == Top(st) IN
+  IF st.stuck THEN st
+  ELSE IF f.kind = "HTML" /\ f.sarg = <<name>> THEN Pop(st)
+  ELSE CloseToTag(Pop(st), name)
+TagEndFn(st0, name) ==
+  LET st1 == IF EndTagCloses(st0.stack, Len(st0.stack), name) THEN CloseBeglineLists(st0) ELSE st0 IN
+  IF st1.stuck THEN st1
+  ELSE IF name = "pre"
+  THEN LET st2 == [st1 EXCEPT !.pre = FALSE] IN
+       IF Top(st2).kind # "PRE" THEN TextFn(st2, TagAtom(name, TRUE)) ELSE Pop(st2)
+  ELSE IF st1.pre THEN TextFn(st1, TagAtom(name, TRUE))
+  ELSE IF ~HaveTag(st1, name)
+  THEN IF name = "br" THEN SetTop(st1, AppendNode(Top(st1), Leaf("HTML", <<name>>, <<>>)))
+       ELSE TextFn(st1, TagAtom(name, TRUE))
+  ELSE CloseToTag(st1, name)
+
+(* ------------------------------------------- magic_fn / magicword / url -- *)
+\* T, A, L, E cookies with plain-word arguments: close lists, append a leaf
+MagicLeaf(k) ==
+  CASE k = "T" -> Leaf("TEMPLATE", <<>>, << <<[s |-> <<"t">>]>> >>)
+    [] k = "A" -> Leaf("TEMPLATE_ARG", <<>>, << <<[s |-> <<"1">>]>> >>)
+    [] k = "L" -> Leaf("LINK", <<>>, << <<[s |-> <<"L">>]>> >>)
+    [] k = "E" -> Leaf("URL", <<>>, << <<[s |-> <<"url">>]>>, <<[s |-> <<"w">>]>> >>)
+    [] k = "F" -> Leaf("FILLER", <<>>, <<>>)
+MagicFn(st0, k) ==
+  LET st1 == CloseBeglineLists(st0) IN
+  IF st1.stuck THEN st1
+  ELSE IF k = "N" THEN TextFn(st1, "nowiki")
+  ELSE SetTop(st1, AppendNode(Top(st1), MagicLeaf(k)))
+MagicWordFn(st0) ==
+  LET st1 == CloseBeglineLists(st0) IN
+  IF st1.stuck THEN st1 ELSE SetTop(st1, AppendNode(Top(st1), Leaf("MAGIC_WORD", <<"__NOTOC__">>, <<>>)))
+UrlFn(st0) ==
+  LET st1 == CloseBeglineLists(st0) IN
+  IF st1.stuck THEN st1
+  ELSE IF st1.pre THEN TextFn(st1, "url")
+  ELSE SetTop(st1, AppendNode(Top(st1), Leaf("URL", <<>>, << <<[s |-> <<"url">>]>> >>)))
+
+(* ------------------------------------------------------------ dispatch ---- *)
+\* tokens: [k |-> kind (, more)]; the text a token turns into when it is not special
+TokAtoms(tok) ==
+  CASE tok.k = "TXT" -> tok.a
+    [] tok.k = "SP"  -> [i \in 1..tok.n |-> "SP"]
+    [] tok.k = "NL"  -> <<"NL">>
+    [] tok.k = "HS"  -> EqAtoms(tok.l)
+    [] tok.k = "HE"  -> EqAtoms(tok.l)
+    [] tok.k = "LP"  -> tok.p
+    [] tok.k = "HR"  -> <<"----">>
+    [] tok.k = "IT"  -> <<"''">>
+    [] tok.k = "BO"  -> <<"'''">>
+    [] tok.k = "TS"  -> <<"{", "|">>
+    [] tok.k = "TE"  -> <<"|", "}">>
+    [] tok.k = "TR"  -> <<"|", "-">>
+    [] tok.k = "TC"  -> <<"|", "+">>
+    [] tok.k = "VB"  -> <<"|">>
+    [] tok.k = "DVB" -> <<"|", "|">>
+    [] tok.k = "EX"  -> <<"!">>
+    [] tok.k = "DEX" -> <<"!", "!">>
+    [] tok.k = "TAG" -> <<TagAtom(tok.name, tok.close)>>
+    [] tok.k = "MAGIC" -> <<"magic" \o tok.m>>
+    [] tok.k = "MW"  -> <<"__NOTOC__">>
+    [] tok.k = "URL" -> <<"url">>
+
+Handle(st, tok, Dev) ==
+  IF Top(st).kind = "PRE" /\ ~(tok.k = "TAG" /\ tok.close /\ tok.name = "pre")
+  THEN TextSeq(st, TokAtoms(tok), 1)        \* process_text: inside <pre> everything is text
+  ELSE CASE tok.k \in {"TXT", "SP", "NL"} -> TextSeq(st, TokAtoms(tok), 1)
+         [] tok.k = "HS"  -> SubtitleStart(st, tok.l)
+         [] tok.k = "HE"  -> SubtitleEnd(st, tok.l, Dev)
+         [] tok.k = "LP"  -> ListFn(st, tok.p)
+         [] tok.k = "HR"  -> (IF st.bol THEN HlineFn(st, Dev) ELSE TextFn(st, "----"))
+         [] tok.k = "IT"  -> FormatFn(st, "ITALIC", <<"''">>)
+         [] tok.k = "BO"  -> FormatFn(st, "BOLD", <<"'''">>)
+         [] tok.k = "TS"  -> TableStartFn(st)
+         [] tok.k = "TE"  -> TableEndFn(st)
+         [] tok.k = "TR"  -> TableRowFn(st)
+         [] tok.k = "TC"  -> TableCaptionFn(st)
+         [] tok.k = "VB"  -> VbarFn(st)
+         [] tok.k = "DVB" -> DoubleVbarFn(st)
+         [] tok.k = "EX"  -> TableHdrCellFn(st, <<"!">>)
+         [] tok.k = "DEX" -> TableHdrCellFn(st, <<"!", "!">>)
+         [] tok.k = "TAG" -> (IF tok.close THEN TagEndFn(st, tok.name)
+                              ELSE TagStartFn(st, tok.name, tok.attrs, tok.self))
+         [] tok.k = "MAGIC" -> MagicFn(st, tok.m)
+         [] tok.k = "MW"  -> MagicWordFn(st)
+         [] tok.k = "URL" -> UrlFn(st)
+
+\* process_text: handler, then linenum / wsp_beginning_of_line / beginning_of_line
+Step(st, tok, Dev) ==
+  IF st.stuck THEN st
+  ELSE LET r == Handle(st, tok, Dev) IN
+       [r EXCEPT !.line = IF tok.k = "NL" THEN r.line + 1 ELSE r.line,
+                 !.wsp = st.bol /\ tok.k \in {"SP", "NL"},
+                 !.bol = (tok.k = "NL")]
+RECURSIVE Feed(_, _, _, _)
+Feed(st, toks, i, Dev) == IF i > Len(toks) THEN st ELSE Feed(Step(st, toks[i], Dev), toks, i + 1, Dev)
+
+InitState == [stack |-> << Frame("ROOT", <<>>, 0) >>, bol |-> TRUE, wsp |-> FALSE, line |-> 1,
+              pre |-> FALSE, stuck |-> FALSE]
+
+(* parse_encoded after process_text: pop everything, return the root; the    *)
+(* `finally` empties the stack                                               *)
+RECURSIVE PopAll(_)
+PopAll(st) == IF Len(st.stack) = 1 \/ st.stuck THEN st ELSE PopAll(Pop(st))
+Finish(st, Dev) ==
+  LET st1 == PopAll(st) IN
+  [root |-> NodeOf(st1.stack[1]),
+   stack |-> 0,                                         \* ctx.parser_stack = [] in the finally
+   pre |-> IF "PreParseLeftSet" \in Dev THEN st1.pre ELSE FALSE,
+   stuck |-> st1.stuck]
+
+(* -------------------------------------------------- tokenizer (token_iter) *)
+(* Input: a sequence of chunks (strings naming a piece of source text).      *)
+(* Lines are separated by "NL" chunks.                                        *)
+MarkerChunks == {"*", "#", ";", ":"}
+EqLen(c) == CASE c = "EQ1" -> 1 [] c = "EQ2" -> 2 [] c = "EQ3" -> 3 [] c = "EQ4" -> 4
+              [] c = "EQ5" -> 5 [] c = "EQ6" -> 6 [] OTHER -> 0
+QLen(c) == CASE c = "Q2" -> 2 [] c = "Q3" -> 3 [] c = "Q5" -> 5 [] OTHER -> 0
+WordAtoms == {"w", "a=b", "t", "L", "1", "url", "nowiki", "x"}
+
+\* a chunk that is always the same token, wherever it stands
+FixedTok(c) ==
+  CASE c = "W"     -> [k |-> "TXT", a |-> <<"w">>]
+    [] c = "ATTR"  -> [k |-> "TXT", a |-> <<"a=b">>]
+    [] c = "TS"    -> [k |-> "TS"]
+    [] c = "TE"    -> [k |-> "TE"]
+    [] c = "TR"    -> [k |-> "TR"]
+    [] c = "TC"    -> [k |-> "TC"]
+    [] c = "VB"    -> [k |-> "VB"]
+    [] c = "DVB"   -> [k |-> "DVB"]
+    [] c = "DEX"   -> [k |-> "DEX"]
+    [] c = ":"     -> [k |-> "LP", p |-> <<":">>]
+    [] c = "SPAN"  -> [k |-> "TAG", name |-> "span", close |-> FALSE, self |-> FALSE, attrs |-> <<>>]
+    [] c = "SPANA" -> [k |-> "TAG", name |-> "span", close |-> FALSE, self |-> FALSE, attrs |-> <<"class">>]
+    [] c = "ESPAN" -> [k |-> "TAG", name |-> "span", close |-> TRUE, self |-> FALSE, attrs |-> <<>>]
+    [] c = "DIV"   -> [k |-> "TAG", name |-> "div", close |-> FALSE, self |-> FALSE, attrs |-> <<>>]
+    [] c = "EDIV"  -> [k |-> "TAG", name |-> "div", close |-> TRUE, self |-> FALSE, attrs |-> <<>>]
+    [] c = "BR"    -> [k |-> "TAG", name |-> "br", close |-> FALSE, self |-> FALSE, attrs |-> <<>>]
+    [] c = "EBR"   -> [k |-> "TAG", name |-> "br", close |-> TRUE, self |-> FALSE, attrs |-> <<>>]
+    [] c = "SPANS" -> [k |-> "TAG", name |-> "span", close |-> FALSE, self |-> TRUE, attrs |-> <<>>]
+    [] c = "REF"   -> [k |-> "TAG", name |-> "ref", close |-> FALSE, self |-> FALSE, attrs |-> <<>>]
+    [] c = "EREF"  -> [k |-> "TAG", name |-> "ref", close |-> TRUE, self |-> FALSE, attrs |-> <<>>]
+    [] c = "UL"    -> [k |-> "TAG", name |-> "ul", close |-> FALSE, self |-> FALSE, attrs |-> <<>>]
+    [] c = "EUL"   -> [k |-> "TAG", name |-> "ul", close |-> TRUE, self |-> FALSE, attrs |-> <<>>]
+    [] c = "LI"    -> [k |-> "TAG", name |-> "li", close |-> FALSE, self |-> FALSE, attrs |-> <<>>]
+    [] c = "ELI"   -> [k |-> "TAG", name |-> "li", close |-> TRUE, self |-> FALSE, attrs |-> <<>>]
+    [] c = "PRE"   -> [k |-> "TAG", name |-> "pre", close |-> FALSE, self |-> FALSE, attrs |-> <<>>]
+    [] c = "EPRE"  -> [k |-> "TAG", name |-> "pre", close |-> TRUE, self |-> FALSE, attrs |-> <<>>]
+    [] c = "UNK"   -> [k |-> "TAG", name |-> "foo", close |-> FALSE, self |-> FALSE, attrs |-> <<>>]
+    [] c = "EUNK"  -> [k |-> "TAG", name |-> "foo", close |-> TRUE, self |-> FALSE, attrs |-> <<>>]
+    [] c = "MT"    -> [k |-> "MAGIC", m |-> "T"]
+    [] c = "MA"    -> [k |-> "MAGIC", m |-> "A"]
+    [] c = "ML"    -> [k |-> "MAGIC", m |-> "L"]
+    [] c = "ME"    -> [k |-> "MAGIC", m |-> "E"]
+    [] c = "MN"    -> [k |-> "MAGIC", m |-> "N"]
+    [] c = "FIL"   -> [k |-> "MAGIC", m |-> "F"]
+    [] c = "MW"    -> [k |-> "MW"]
+    [] c = "URL"   -> [k |-> "URL"]
+\* what a line-start-only chunk is in the middle of a line: plain text
+MidText(c) ==
+  CASE c \in {"*", "#", ";"} -> <<c>>
+    [] c = "HR" -> <<"----">>
+    [] c = "EX" -> <<"!">>
+    [] EqLen(c) > 0 -> EqAtoms(EqLen(c))
+
+IsQ(c) == QLen(c) > 0
+\* length of the run of chunks satisfying P starting at i
+RECURSIVE RunEnd(_, _, _)
+RunEnd(line, i, P(_)) == IF i <= Len(line) /\ P(line[i]) THEN RunEnd(line, i + 1, P) ELSE i
+RECURSIVE SumQ(_, _, _)
+SumQ(line, i, j) == IF i >= j THEN 0 ELSE QLen(line[i]) + SumQ(line, i + 1, j)
+\* bold_follows: a later apostrophe run of length >= 3 on the same line
+RECURSIVE BoldFollows(_, _)
+BoldFollows(line, i) ==
+  IF i > Len(line) THEN FALSE
+  ELSE IF IsQ(line[i])
+       THEN LET j == RunEnd(line, i, IsQ) IN SumQ(line, i, j) >= 3 \/ BoldFollows(line, j)
+       ELSE BoldFollows(line, i + 1)
+Apos(n) == IF n > 0 THEN << [k |-> "TXT", a |-> [i \in 1..n |-> "'"]] >> ELSE <<>>
+IT == [k |-> "IT"]
+BO == [k |-> "BO"]
+\* tokens for an apostrophe run of length n in state s (0 none, 1 italic, 2 bold, 3 both)
+QuoteToks(n, s, follows) ==
+  IF n >= 5
+  THEN CASE s = 1 -> [t |-> <<IT, BO>> \o Apos(n - 5), s |-> 2]
+         [] s = 2 -> [t |-> <<BO, IT>> \o Apos(n - 5), s |-> 1]
+         [] s = 3 -> [t |-> <<BO, IT>> \o Apos(n - 5), s |-> 0]
+         [] s = 0 -> [t |-> (IF follows THEN <<IT, BO>> ELSE <<BO, IT>>) \o Apos(n - 5), s |-> 3]
+  ELSE IF n >= 3
+  THEN CASE s = 1 -> (IF follows THEN [t |-> <<BO>> \o Apos(n - 3), s |-> 3]
+                      ELSE [t |-> <<IT>> \o Apos(n - 2), s |-> 0])
+         [] s = 2 -> [t |-> <<BO>> \o Apos(n - 3), s |-> 0]
+         [] s = 3 -> [t |-> <<BO>> \o Apos(n - 3), s |-> 1]
+         [] s = 0 -> [t |-> <<BO>> \o Apos(n - 3), s |-> 2]
+  ELSE CASE s = 1 -> [t |-> <<IT>>, s |-> 0]
+         [] s = 2 -> [t |-> <<IT>>, s |-> 3]
+         [] s = 3 -> [t |-> <<IT>>, s |-> 2]
+         [] s = 0 -> [t |-> <<IT>>, s |-> 1]
+
+IsSP(c) == c = "SP"
+IsMarker(c) == c \in MarkerChunks
+AllSP(line) == \A i \in 1..Len(line) : line[i] = "SP"
+
+\* tokens of the rest of a non-heading line from chunk i on; first = still in
+\* the first apostrophe-free part (where ^-anchored tokens can match at i = 1)
+RECURSIVE LineToks(_, _, _, _)
+LineToks(line, i, s, first) ==
+  IF i > Len(line) THEN <<>>
+  ELSE LET c == line[i] IN
+    IF IsQ(c)
+    THEN LET j == RunEnd(line, i, IsQ)
+             q == QuoteToks(SumQ(line, i, j), s, BoldFollows(line, j))
+         IN q.t \o LineToks(line, j, q.s, FALSE)
+    ELSE IF c = "SP"
+    THEN LET j == RunEnd(line, i, IsSP) IN
+         \* "^[ \t]*!" : leading blanks directly before ! at the line start belong to the token
+         IF i = 1 /\ first /\ j <= Len(line) /\ line[j] = "EX"
+         THEN <<[k |-> "EX"]>> \o LineToks(line, j + 1, s, first)
+         ELSE <<[k |-> "SP", n |-> j - i]>> \o LineToks(line, j, s, first)
+    ELSE IF i = 1 /\ first /\ IsMarker(c)
+    THEN LET j == RunEnd(line, 1, IsMarker) IN
+         <<[k |-> "LP", p |-> SubSeq(line, 1, j - 1)]>> \o LineToks(line, j, s, first)
+    ELSE IF i = 1 /\ first /\ c = "HR" THEN <<[k |-> "HR"]>> \o LineToks(line, 2, s, first)
+    ELSE IF i = 1 /\ first /\ c = "EX" THEN <<[k |-> "EX"]>> \o LineToks(line, 2, s, first)
+    ELSE IF c \in {"*", "#", ";", "HR", "EX"} \/ EqLen(c) > 0
+    THEN <<[k |-> "TXT", a |-> MidText(c)]>> \o LineToks(line, i + 1, s, first)
+    ELSE <<FixedTok(c)>> \o LineToks(line, i + 1, s, first)
+
+\* header_re: ^(={1,6})\s*(([^=]|=[^=])+?)\s*(={1,6})\s*$
+RECURSIVE LastNonSP(_, _)
+LastNonSP(line, i) == IF i = 0 THEN 0 ELSE IF line[i] # "SP" THEN i ELSE LastNonSP(line, i - 1)
+RECURSIVE Strip(_)
+Strip(seq) ==
+  IF seq = <<>> THEN seq
+  ELSE IF seq[1] = "SP" THEN Strip(Tail(seq))
+  ELSE IF Last(seq) = "SP" THEN Strip(DropLast(seq))
+  ELSE seq
+IsHeading(line) ==
+  LET j == LastNonSP(line, Len(line)) IN
+  /\ Len(line) >= 3 /\ EqLen(line[1]) > 0 /\ j >= 3 /\ EqLen(line[j]) > 0
+  /\ \A m \in 2..(j - 1) : EqLen(line[m]) = 0
+HeadingToks(line) ==
+  LET j == LastNonSP(line, Len(line))
+      a == EqLen(line[1])
+      b == EqLen(line[j])
+      l == IF a < b THEN a ELSE b
+      mid == Strip(SubSeq(line, 2, j - 1))
+      pre == IF a > b THEN <<[k |-> "TXT", a |-> EqAtoms(a - b)]>> ELSE <<>>
+      post == IF b > a THEN <<[k |-> "TXT", a |-> EqAtoms(b - a)]>> ELSE <<>>
+  IN <<[k |-> "HS", l |-> l]>> \o pre \o (IF AllSP(mid) THEN <<>> ELSE LineToks(mid, 1, 0, a <= b)) \o post
+     \o <<[k |-> "HE", l |-> l]>>
+LineTokens(line) ==
+  IF AllSP(line) THEN <<>>                   \* whitespace-only lines are skipped
+  ELSE IF IsHeading(line) THEN HeadingToks(line)
+  ELSE LineToks(line, 1, 0, TRUE)
+
+RECURSIVE Tokenize(_, _, _)
+\* doc from chunk i on; cur = chunks of the current line so far
+Tokenize(doc, i, cur) ==
+  IF i > Len(doc) THEN LineTokens(cur)
+  ELSE IF doc[i] = "NL" THEN LineTokens(cur) \o <<[k |-> "NL"]>> \o Tokenize(doc, i + 1, <<>>)
+  ELSE Tokenize(doc, i + 1, Append(cur, doc[i]))
+
+Parse(doc, Dev) == Finish(Feed(InitState, Tokenize(doc, 1, <<>>), 1, Dev), Dev)
 =============================================================================
